@@ -83,6 +83,8 @@ try:
     with cm:
         if fault == "put":
             b.put("a", b"dup")          # duplicate key: KeyError at flush (session exit)
+        if w.get("body_raises") == "KeyboardInterrupt":
+            raise KeyboardInterrupt()          # an exception that is not an `Exception`
         if w.get("body_raises"):
             raise RuntimeError("body")
 except BaseException as e:
